@@ -60,6 +60,7 @@ type Frame struct {
 	stackIDs  []Term                  // object ids of this activation's non-escaping local aggregates
 	curBlock  *ssa.BasicBlock
 	atCallArgs []Term
+	callArgs   map[*ssa.CallCommon][]Term // argument values of the calls executed so far (for aftercall clauses)
 }
 
 func (fr *Frame) oblName(n string) string {
